@@ -3,6 +3,7 @@ package main
 import (
 	"bytes"
 	"fmt"
+	"math/big"
 
 	"github.com/tuneinsight/lattigo/v6/core/rlwe"
 	"github.com/tuneinsight/lattigo/v6/ring"
@@ -148,23 +149,19 @@ func (e *env) noiseOK(ct *rlwe.Ciphertext, pt *rlwe.Plaintext, sk *rlwe.SecretKe
 	ph := uni.Phase(e.p, ct.El(), sk)
 	m := uni.PolyCoeffs(e.p.RingQ(), pt.Value, ct.Level(), pt.IsNTT, pt.IsMontgomery)
 	d := uni.SubCentered(ph, m, uni.QAtLevel(e.p, ct.Level()))
-	max := int64(0)
+	// a valid encryption has noise far below Q (how far depends on the key-switch decomposition in play:
+	// without P the RNS digits are as large as a prime); garbage has noise of the size of Q
+	Q := uni.QAtLevel(e.p, ct.Level())
+	worst := 0
 	for _, x := range d {
-		if !x.IsInt64() {
-			return []byte("noise: huge")
-		}
-		v := x.Int64()
-		if v < 0 {
-			v = -v
-		}
-		if v > max {
-			max = v
+		if b := new(big.Int).Abs(x).BitLen(); b > worst {
+			worst = b
 		}
 	}
-	if max > 1<<20 {
-		return []byte(fmt.Sprintf("noise: 2^%d-ish", bitlen(max)))
+	if worst > Q.BitLen()-40 {
+		return []byte(fmt.Sprintf("NOT a valid encryption: noise of %d bits, Q has %d", worst, Q.BitLen()))
 	}
-	return []byte("valid encryption (noise < 2^20)")
+	return []byte("valid encryption (noise at least 40 bits below Q)")
 }
 
 func bitlen(v int64) int {
